@@ -304,15 +304,26 @@ def negative(rec, rng, fs, tj, name, s, e, fill):
         rec.count("negative.calls")
         rec.ev()
         case = {"kind": "neg", "tj": tj, "name": b, "why": why}
-        try:
-            info = fs.get_info("/vt-nonexistent-root/base/" + b)
-        except ValueError:
-            continue
-        except Exception as exc:
-            rec.violation("name-not-rejected", case, {"why": why, "exception": repr(exc)})
-            continue
-        rec.violation("name-not-rejected", case, {"why": why + ": parsed instead of ValueError",
-                                                  "times": [str(t) for t in info.times]})
+        # the same object is asked twice: a rejected name must stay rejected on a retry
+        outcome = []
+        for attempt in (1, 2):
+            try:
+                info = fs.get_info("/vt-nonexistent-root/base/" + b)
+                outcome.append(("parsed", [str(t) for t in info.times]))
+            except ValueError:
+                outcome.append(("ValueError", None))
+            except Exception as exc:
+                outcome.append(("other", repr(exc)))
+        for attempt, (kind, extra) in enumerate(outcome, 1):
+            if kind == "parsed":
+                rec.violation("name-not-rejected", dict(case, attempt=attempt),
+                              {"why": why + ": parsed instead of ValueError (attempt %d)" % attempt,
+                               "times": extra})
+                break
+            if kind == "other":
+                rec.violation("name-not-rejected", dict(case, attempt=attempt),
+                              {"why": why, "exception": extra})
+                break
 
 
 def handler_case(rec, rng, tj, s, e, fill):
@@ -321,7 +332,12 @@ def handler_case(rec, rng, tj, s, e, fill):
     he = rng.choice([None, e + D(days=2, seconds=3)])
     hattr = rng.choice([{}, {"sat": "from-handler"}, {"orbit": 42}])
 
+    state = {"fail_next": rng.random() < 0.3}
+
     def info_fn(file_info):
+        if state["fail_next"]:
+            state["fail_next"] = False
+            raise OSError("harness: handler cannot open the file this time")
         return FileInfo(file_info.path, [hs, he], dict(hattr))
     for via in ("both", "handler"):
         rec.count("handler.calls")
@@ -332,7 +348,11 @@ def handler_case(rec, rng, tj, s, e, fill):
         try:
             fs = make_fs(tj, handler=FileHandler(info=info_fn), info_via=via)
             name = fs.get_filename((s, e), fill=fill)
-            info = fs.get_info(name)
+            try:
+                info = fs.get_info(name)
+            except OSError:
+                rec.count("handler.failed_once_then_retried")
+                info = fs.get_info(name)  # retry on the same object after a handler fault
         except Exception as exc:
             if via == "handler" and hs is None and he is not None and isinstance(exc, ValueError):
                 continue  # documented: an end without a start cannot be used
